@@ -170,6 +170,9 @@ def generate(rng, tier):
                         b, p = round(b * 16) / 16, round(p * 16) / 16
                     pts.append([b, b + p])
                 c[key] = pts
+        if rel == "njobs" and c["weight"]["type"] == "persistence" and c["weight"]["n"] != int(c["weight"]["n"]):
+            # the arrays are read with both skew flags; a real exponent is nan on a negative persistence
+            c["weight"] = {"type": "persistence", "n": float(rng.choice([1, 2, 3]))}
         if rel in ("collection", "njobs"):
             c["C"] = _pts(rng, base, rng.randint(1, 4), skew, wcls, dyadic)
             if c["container"] in ("i64", "list_int"):
